@@ -52,5 +52,5 @@ echo "--- existing suite with patch (must pass)"
    go test -vet=off -count=2 $pkgs 2>&1 | tail -3; echo "suite-rerun-exit=${PIPESTATUS[0]}"
  fi)
 echo "--- ./check $ID $TIER against the patched tree"
-VERIF_REPO="$W" timeout 5400 /verif/check "$ID" "$TIER" 2>&1 | grep -v "^KNOWN" | cut -c1-600 | tail -25
+VERIF_REPO="$W" timeout 5400 /verif/check "$ID" "$TIER" 2>&1 | grep -v "^KNOWN" | grep "^violation\|^VIOLATION\|^SUMMARY\|^INFRA\|^VERIF\|BUILD" | cut -c1-400 | tail -40
 echo "check-exit=${PIPESTATUS[0]}"
